@@ -12,11 +12,15 @@ fn ulps(a: f32, b: f32) -> u32 {
 }
 
 /// U1: degs/turns/rads and to_degs/to_turns/to_rads round trips within 4 ulp
-/// for every finite |a| in [1e-6, 1e6]; constants consistent.
+/// for |a| in [1,2) (every other binade is an exact power-of-two multiple); constants consistent.
 #[kani::proof]
 fn c18_unit_round_trips() {
     let a: f32 = kani::any();
-    kani::assume(a.abs() >= 1e-6 && a.abs() <= 1e6);
+    // one binade, both signs (multiplying and dividing by a constant commutes with scaling by
+    // 2^k as long as nothing over/underflows); quick tier: 12 leading mantissa bits
+    kani::assume(a.abs() >= 1.0 && a.abs() < 2.0);
+    #[cfg(not(feature = "deep"))]
+    kani::assume(a.to_bits() & 0x7ff == 0);
     assert!(rads(a).to_rads().to_bits() == a.to_bits());
     let d = degs(a).to_degs();
     let t = turns(a).to_turns();
@@ -25,7 +29,7 @@ fn c18_unit_round_trips() {
     assert!(degs(360.0).to_rads() == Angle::FULL.to_rads() || ulps(degs(360.0).to_rads(), Angle::FULL.to_rads()) <= 1);
     assert!(turns(1.0) == Angle::FULL && turns(0.5) == Angle::STRAIGHT && turns(0.25) == Angle::RIGHT);
     assert!(Angle::ZERO.to_rads() == 0.0);
-    kani::cover!(a < -1000.0, "many negative revolutions");
+    kani::cover!(a < -1.5, "negative");
 }
 
 /// U1b: cross conversions: degs(x) and turns(x/360) describe the same angle (4 ulp),
